@@ -2,18 +2,19 @@
 // scoping (a let is visible in the statements after it, a scope variable inside its body, nothing leaks).
 // Written independently of the Coq model and of pkg/eval; applied to programs of the typed stream only.
 // Where the language has no specification beyond the implementation's evident intent, the choices are:
-//   set literal            elements as written (no de-duplication, no reordering)
-//   set | set              sorted union without duplicates (ints numerically, strings bytewise)
-//   list | list, list|set  concatenation, a list
-//   xs where(v: p)         the elements for which p holds, same collection kind, order kept
-//   xs flatten(v: e)       e for every element of every inner collection (list result for an outer list, set
-//                          result for an outer set); over a collection of maps: e for every map, a set-valued
-//                          e being spliced when the outer collection is a set
-//   transform              list/set argument: one result per element, `set of` results keep the first
-//                          occurrence of equal results; map argument with a named scope variable: one result
-//                          per entry in key order with the variable bound to (key, value); otherwise one result
-//   m.attr                 on a (key, value) pair: the key / the value / an attribute of the value
-//   str(x)                 decimal ints, true/false, [a, b], {k: v} with sorted entries
+//
+//	set literal            elements as written (no de-duplication, no reordering)
+//	set | set              sorted union without duplicates (ints numerically, strings bytewise)
+//	list | list, list|set  concatenation, a list
+//	xs where(v: p)         the elements for which p holds, same collection kind, order kept
+//	xs flatten(v: e)       e for every element of every inner collection (list result for an outer list, set
+//	                       result for an outer set); over a collection of maps: e for every map, a set-valued
+//	                       e being spliced when the outer collection is a set
+//	transform              list/set argument: one result per element, `set of` results keep the first
+//	                       occurrence of equal results; map argument with a named scope variable: one result
+//	                       per entry in key order with the variable bound to (key, value); otherwise one result
+//	m.attr                 on a (key, value) pair: the key / the value / an attribute of the value
+//	str(x)                 decimal ints, true/false, [a, b], {k: v} with sorted entries
 package main
 
 import (
